@@ -67,7 +67,7 @@ def c07(ctx):
             for bi, t in b.calls():
                 if is_callee(t, "analysis::visit::VisitExpr::visit_expression") and recv_kind(b, t) == "read":
                     pe.append((b, bi, t))
-        ok = len(pe) == 1 and pe[0][0].kind == "closure"
+        ok = len(pe) == 1
         why = "" if ok else "expected one evaluation of the `with` parameter, found %d" % len(pe)
         dest_sw = None
         for bi in range(len(mh.blocks)):
@@ -75,17 +75,24 @@ def c07(ctx):
             if sw and any(nm == "dest" for of, nm, _ in common.place_fields(sw[0])) or (sw and any(p[:1] == ("dest",) for d, p in origins(mh, {"copy": {"l": sw[0]["l"], "p": []}}))):
                 dest_sw = bi
         if ok:
-            from ..guards import _closure_use
-            use = _closure_use(F, pe[0][0])
-            if not use or not is_callee(use[2], "std::option::Option::<T>::map") or arg_field(mh, use[2]["args"][0]) != "param":
-                ok, why = False, "the evaluation is not mapped over m.param"
-            elif dest_sw is None or not mh.dominates(use[1], dest_sw):
+            b0, bi0, t0 = pe[0]
+            # what is evaluated is m.param (whatever idiom: map over the Option, match, if let), wherever the site sits
+            from ..flow import Labels
+            lab = Labels(F, mh, {(mh.path, i): {("m",)} for i in range(1, mh.argc + 1) if mh.local_name(i) == "m"},
+                         extend=lambda l, pl: l + tuple(nm for of, nm, _ in common.place_fields(pl) if of == "frontend::ast::Mutation")[:1] if len(l) == 1 else l)
+            flds = {l[1] for l in lab.op_labels(b0, t0["args"][1]) if len(l) == 2}
+            anchors = common.site_anchors(F, mh, b0, bi0)
+            if flds != {"param"}:
+                ok, why = False, "the expression evaluated is %s of the mutation, not its `with` parameter" % (sorted(flds) or "not a field")
+            elif dest_sw is None or not anchors or not all(dest_sw in mh.reachable(a_) and a_ not in mh.reachable_from_succs(dest_sw) for a_ in anchors):
                 ok, why = False, "the parameter is not evaluated before the branch on the destination"
-        rep.ob("C07.R1", "parameter-evaluated-once-before-branch", ok, why, mh.loc(), how="m.param.as_ref().map(evaluate) dominates the branch on m.dest")
+            elif any(a_ in scc for scc in mh.sccs() for a_ in anchors):
+                ok, why = False, "the parameter is evaluated in a loop"
+        rep.ob("C07.R1", "parameter-evaluated-once-before-branch", ok, why, mh.loc(), how="one evaluation of m.param, placed before the branch on m.dest")
         # (b) handed on unchanged
         impure = []
         for b in bodies:
-            if b.kind != "closure" or b is (pe[0][0] if pe else None):
+            if b.kind != "closure" or (pe and b is pe[0][0]):
                 continue
             for bi, t in b.calls():
                 d = callee_def(t) or ""
